@@ -35,7 +35,7 @@ def strategy(draw):
             dts.append(dts[0] * (1 + draw(st.sampled_from([1e-9, 2.2e-8, 1e-6, -1e-7]))))
         else:
             dts.append(draw(gen.choice(gen.DTS)))
-    exp = draw(st.integers(-6, 6))
+    exp = draw(st.one_of(st.integers(-6, 6), st.just(-10)))
     n0 = draw(st.integers(64 if spec["fft_n"] == "record-length" else 16, 400))
     equal = m in ("diffuse_field", "psd") or draw(st.booleans())
     recs = []
